@@ -409,8 +409,11 @@ def fail_unrecognised(ctx, rule, M):
             if r.kind != "return":
                 if r.kind in ("diverge", "infeasible", "unreachable"):
                     continue
-                if r.kind == "backedge" and r.o.where and r.o.where[0] != M["inner"]:
-                    continue  # one iteration of a loop in an expanded callee (analysed by the multipart rules)
+                if r.kind == "backedge":
+                    # one turn of a loop (in an expanded callee, or in the serve function itself, e.g. a size estimate written
+                    # as a loop): everything the loop writes is havocked at its header, so the rows that leave the loop already
+                    # cover every number of turns - a turn that touched the response would surface there as an unknown value
+                    continue
                 ctx.violation(rule, rule + "|path-" + r.kind, "a path of the serve inner function ends in %s" % r.kind)
             else:
                 ctx.violation(rule, rule + "|unrecognised-exit", "UNRECOGNISED exit: %s" % r.why)
@@ -859,6 +862,9 @@ def c03_estimate(ctx, M):
     reach = reachable_bodies(ctx.facts, [inner])
     clos = [n for n, b in ctx.facts.bodies.items() if n in reach and b["kind"] == "closure" and b["arg_count"] == 3
             and b["locals"][2]["s"] == "u64" and "Range<u64>" in b["locals"][3]["s"]]
+    if not clos:
+        # no fold closure: the estimate may be written as an explicit loop (in the serve function or in a helper it calls)
+        return c03_estimate_loop(ctx, M)
     if len(clos) != 1:
         ctx.violation("C03.R5", "C03.R5|estimate-closure", "UNRECOGNISED: expected one fold closure (acc, &Range<u64>) in %s, found %d" % (inner, len(clos)))
         return
@@ -911,6 +917,163 @@ def c03_estimate(ctx, M):
     else:
         ctx.violation("C03.R5", "C03.R5|estimate-family", "multipart decision `sum(%s + |r|) %s len` is outside the family implied by the statement "
                       "(0 <= c <= 160 with <, or 1 <= c <= 160 with <=)" % (c, rel), where=F.loc(ctx.facts.bodies[cname]["span"]))
+
+
+def c03_estimate_loop(ctx, M):
+    """the multipart estimate written as an explicit loop over the resolved ranges (rules/accloop.py reads the summarised
+    loop): starts at 0, each turn adds c + (end - start) of the range yielded in that turn with checked additions, the loop is
+    left early only on overflow (and then the whole entity is served), and after the last range the sum is compared with len"""
+    from . import accloop
+    from . import rangeparse as RP
+    U64 = (1 << 64) - 1
+    outs = [r.o for r in M["rows"]]
+    cands = []
+    for lp in sorted(accloop.loops_of(outs), key=str):
+        LP = accloop.summarise(ctx, outs, lp)
+        ik = LP["iter_key"]
+        if ik is None or ik[0] != "L":
+            continue
+        ity = ctx.facts.bodies[lp[0]]["locals"][ik[1]]["s"]
+        if "Range<u64>" not in ity:
+            continue
+        accs = []
+        for k, vs in LP["entry"].items():
+            if k[0] != "L" or k[2] or len(vs) != 1:
+                continue
+            v0 = next(iter(vs))
+            lty = ctx.facts.bodies[lp[0]]["locals"][k[1]]["s"]
+            if lty == "u64" and v0 == const(0):
+                accs.append((k, False))
+            elif lty == "std::option::Option<u64>" and is_agg(v0) and v0[3] == "Some" and agg_get(v0, "0") == const(0):
+                accs.append((k, True))
+        if len(accs) == 1:
+            cands.append((LP, accs[0]))
+    if len(cands) > 1:
+        # other sums over the ranges exist (the exact body length adds each part's *header length*): the estimate is the one
+        # that adds a constant per range
+        def est_like(LP, ak):
+            akey, optional = ak
+            a0 = LP["lv"](akey)
+            a0 = ("payload", a0, "Some", "0") if optional else a0
+            for T in LP["turns"]:
+                if T.o.kind == "backedge" and T.o.where == (LP["fn"], LP["bb"]):
+                    nv = T.new.get(akey)
+                    if optional:
+                        nv = agg_get(nv, "0") if is_agg(nv) and nv[3] == "Some" else None
+                    if find_const_addend(nv, a0) is not None:
+                        return True
+            return False
+        cands = [(LP, ak) for LP, ak in cands if est_like(LP, ak)]
+    if len(cands) != 1:
+        ctx.violation("C03.R5", "C03.R5|estimate-closure", "UNRECOGNISED: no fold closure (acc, &Range<u64>) and %d loops over the resolved ranges "
+                      "with one u64 accumulator that starts at 0" % len(cands))
+        return
+    LP, (akey, optional) = cands[0]
+    lfn, lbb = LP["fn"], LP["bb"]
+    lvacc = LP["lv"](akey)
+    acc = ("payload", lvacc, "Some", "0") if optional else lvacc
+    TY.setdefault(acc, (64, False))
+    adt, variant, pfns, _ = RP.find_parser(ctx)
+    bad = False
+    # the loop runs over the parser's resolved list
+    for v0 in LP["entry"][LP["iter_key"]]:
+        src = v0
+        for _ in range(6):
+            if isinstance(src, tuple) and src and src[0] == "call" and len(src[2]) == 1 and (src[1].endswith("::into_iter") or src[1].endswith("::iter")):
+                src = src[2][0]
+            elif isinstance(src, tuple) and src and src[0] in ("&", "slice_of", "deref", "refconst"):
+                src = src[1]
+            else:
+                break
+        if not (isinstance(src, tuple) and src and src[0] == "payload" and src[2] == variant and isinstance(src[1], tuple) and src[1][0] == "call" and src[1][1] in pfns):
+            ctx.violation("C03.R5", "C03.R5|estimate-source", "the estimate loop does not run over the whole resolved range list (%s)" % short(src, 80))
+            bad = True
+    consts = set()
+    n_turn = 0
+    rel = None
+    for T in LP["turns"]:
+        if not T.entered:
+            continue
+        o = T.o
+        if len(T.nexts) > 1:
+            ctx.violation("C03.R5", "C03.R5|estimate-skips", "the estimate loop takes more than one range per turn")
+            bad = True
+            continue
+        if o.kind == "backedge" and o.where == (lfn, lbb):
+            n_turn += 1
+            new = T.new.get(akey)
+            if optional:
+                new = agg_get(new, "0") if is_agg(new) and new[3] == "Some" else None
+            c = find_const_addend(new, acc)
+            rng = None
+            if c is not None:
+                q = new[3] if owner_of(new[3][2] if isinstance(new[3], tuple) and len(new[3]) > 2 else None, "end") is not None else new[2]
+                rng = owner_of(q[2], "end")
+            if c is None or T.item is None or rng not in (T.item, ("deref", T.item)):
+                ctx.violation("C03.R5", "C03.R5|estimate-shape", "UNRECOGNISED multipart estimate: one turn leaves %s, not acc + c + (end - start) of this turn's range" % short(new, 100))
+                bad = True
+                continue
+            z = Zone(_all_cons(o), extra_terms=(new,))
+            if not z.entails("Le", new, const(U64)):
+                ctx.violation("C03.R5", "C03.R5|estimate-wraps", "the estimate's additions are not checked (the sum can wrap around)")
+                bad = True
+                continue
+            consts.add(c)
+            continue
+    if bad:
+        return
+    if len(consts) != 1 or not n_turn:
+        ctx.violation("C03.R5", "C03.R5|estimate-shape", "UNRECOGNISED multipart estimate: constants %r over %d turns" % (sorted(consts), n_turn))
+        return
+    c = next(iter(consts))
+    # leaving the loop: exhausted -> the sum is compared with len; early -> only on overflow, and then never multipart
+    n_cmp = 0
+    for r in ok_rows(M):
+        T = next((t_ for t_ in LP["turns"] if t_.o is r.o), None)
+        if T is None or not T.entered:
+            continue
+        mp = r.body["kind"] == "multipart" or any(h[0] == "CONTENT_TYPE" for h in r.headers) or r.status == 413
+        if not T.exhausted:
+            ovf = any(k == "eq" and v == 1 and isinstance(t_, tuple) and t_[0] == "ovf" and t_[1] == "Add" and
+                      (t_[2] == acc or (isinstance(t_[2], tuple) and t_[2][:3] == ("binop", "Add", acc))) for k, t_, v in r.o.cons.log)
+            none_acc = optional and r.o.cons.variant_of(lvacc) == "None"
+            if not (ovf or none_acc):
+                ctx.violation("C03.R5", "C03.R5|estimate-early-exit", "the estimate loop can be left before the last range for a reason other than overflow", where=row_where(r))
+            elif mp:
+                ctx.violation("C03.R5", "C03.R5|estimate-branch", "multipart is chosen although the estimate overflowed", where=row_where(r))
+            continue
+        L = entity_len_term(r)
+        found = None
+        for t_, val in r.o.cons.known.items():
+            if isinstance(t_, tuple) and t_[0] == "binop" and t_[1] in ("Lt", "Le") and acc in (t_[2], t_[3]):
+                op, a, b = t_[1], t_[2], t_[3]
+                if a == acc and b == L:
+                    found = (op, val)
+                elif b == acc and a == L:
+                    found = ({"Lt": "Le", "Le": "Lt"}[op], 1 - val)       # L < acc  ==  !(acc <= L)
+                else:
+                    found = ("?", val)
+        if found is None:
+            if optional and r.o.cons.variant_of(lvacc) == "None":
+                if mp:
+                    ctx.violation("C03.R5", "C03.R5|estimate-branch", "multipart is chosen although the estimate overflowed", where=row_where(r))
+                continue
+            ctx.violation("C03.R5", "C03.R5|estimate-uncompared", "a multi-range response is decided without comparing the estimate with the entity length", where=row_where(r))
+            continue
+        n_cmp += 1
+        op, val = found
+        if op == "?":
+            rel = "?"
+            continue
+        rel = op if rel in (None, op) else "?"
+        if bool(val) != mp:
+            ctx.violation("C03.R5", "C03.R5|estimate-branch", "multipart is chosen on the wrong side of the estimate comparison", where=row_where(r))
+    good = (rel == "Lt" and 0 <= c <= 160) or (rel == "Le" and 1 <= c <= 160)
+    if good and n_cmp:
+        ctx.ok("C03.R5", "multipart iff sum(%d + |r|) %s len (explicit loop in %s)" % (c, "<" if rel == "Lt" else "<=", lfn), detail={"constant": c, "relation": rel})
+    else:
+        ctx.violation("C03.R5", "C03.R5|estimate-family", "multipart decision `sum(%s + |r|) %s len` is outside the family implied by the statement "
+                      "(0 <= c <= 160 with <, or 1 <= c <= 160 with <=)" % (c, rel))
 
 
 def _all_cons(o):
